@@ -132,5 +132,43 @@ Definition P_b (c : case) : bool :=
   | _, _ => false
   end.
 
+(* ------------------------------------------------------------------------------------------- *)
+(* The same property as a proposition over the nodes ([gives], [gives_ok], [cnt] are in
+   Model/C07_Spec.v).  Proofs/C07_Check.v: [P_b c = true -> P c] when equal ids carry equal
+   contents (P_b means what it should), and [agree c = true -> P_b c = true]. *)
+Definition P (c : case) : Prop :=
+  let st := c_strat c in let pr := c_params c in let ps := c_provs c in
+  let T := p_timeout pr in let ot := o_time (c_obs c) in
+  let soft := forall p1 v1, In p1 ps -> gives_ok st pr p1 v1 -> pv_time p1 < T / 2 -> ot <= T / 2 in
+  ot <= T /\ o_calls (c_obs c) = map (fun _ => 1) ps /\
+  match template_of st, o_res (c_obs c) with
+  | TBest, RVal id =>
+      (exists p0 v, In p0 ps /\ gives_ok st pr p0 v /\ v_id v = id /\ pv_time p0 <= ot
+         /\ forall p1 v1, In p1 ps -> gives_ok st pr p1 v1 -> pv_time p1 < ot ->
+                          sgt (vscore st pr v1) (vscore st pr v) = false)
+      /\ soft
+  | TBest, RErr => forall p1 v1, In p1 ps -> gives_ok st pr p1 v1 -> T <= pv_time p1
+  | (TMajAtt | TMajRoot) as tp, RVal id =>
+      (exists p0 v, In p0 ps /\ gives_ok st pr p0 v /\ v_id v = id /\ pv_time p0 <= ot
+         /\ (1 <= cnt st pr ps (fun x => (x <=? ot)%N) id)%Z
+         /\ (maj_thr st pr <= cnt st pr ps (fun x => (x <=? ot)%N) id)%Z
+         /\ forall p1 v1, In p1 ps -> gives_ok st pr p1 v1 ->
+              (cnt st pr ps (fun x => (x <? ot)%N) (v_id v1) <= cnt st pr ps (fun x => (x <=? ot)%N) id)%Z
+              /\ (cnt st pr ps (fun x => (x <? ot)%N) (v_id v1) = cnt st pr ps (fun x => (x <=? ot)%N) id
+                  -> vslot pr v1 <= vslot pr v))
+      /\ (tp = TMajRoot -> soft)
+  | (TMajAtt | TMajRoot), RErr =>
+      forall p1 v1, In p1 ps -> gives_ok st pr p1 v1 ->
+                    (cnt st pr ps (fun x => (x <? T)%N) (v_id v1) < Z.max 1 (maj_thr st pr))%Z
+  | TFirst, RVal id =>
+      (exists p0 v, In p0 ps /\ gives pr p0 v /\ v_id v = id /\ is_nil (v_raw v) = false /\ pv_time p0 = ot)
+      /\ forall p1 v1, In p1 ps -> gives pr p1 v1 -> ot <= pv_time p1
+  | TFirst, RNil =>
+      (exists p0 v, In p0 ps /\ gives pr p0 v /\ is_nil (v_raw v) = true /\ pv_time p0 = ot)
+      /\ forall p1 v1, In p1 ps -> gives pr p1 v1 -> ot <= pv_time p1
+  | TFirst, RErr => forall p1 v1, In p1 ps -> gives pr p1 v1 -> T <= pv_time p1
+  | _, _ => False
+  end.
+
 Definition mismatches (cs : list case) : list N := failing_ids c_id agree cs.
 Definition violations (cs : list case) : list N := failing_ids c_id P_b cs.
